@@ -69,8 +69,12 @@ def catalog(pid, tier):
         q = q + [five]
         t = t + [five, inst("dbljoin5_w2", "dbljoin5", 2, 48)]
     if pid == "C07":
-        q = q + cyc[:2]
-        t = t + cyc
+        # "it never hangs" also when the operating system refuses a worker thread (Thread.start raises RuntimeError, once, at any worker):
+        # run must raise, with every thread it did start joined -- not wait on a queue that nobody serves
+        sf = inst("startfail_pair_w2", "pair", 2, 34, opts={"start_may_fail": True}, witnesses=("start_refused",))
+        sf["bits_override"] = [b for b in BITS["C07"] if b.startswith("c07_") and "cycle" not in b]
+        q = q + cyc[:2] + [sf]
+        t = t + cyc + [sf, dict(inst("startfail_indep2_w3", "indep2", 3, 40, opts={"start_may_fail": True}, witnesses=("start_refused",)), bits_override=sf["bits_override"])]
     if pid == "C17":
         # Interrupt positions are split in two classes.  "startup" = the coordinator has just started a worker thread and is about to
         # record it (workers.append): the known finding C17:interrupt-between-thread-start-and-append lives there.  Everything else
@@ -268,6 +272,9 @@ def lemma_conditions(pid, tier):
                                  label=f"queue_contract_{kind}_init{ninit}_{ops}"))
     cs.append(xhrun.Cond("harness_queue", "c04_create_queue", {}, timeout=300, label="queue_contract_create_queue"))
     cs.append(xhrun.Cond("harness_queue", "c04_prepare", {}, timeout=900, label="prepare_nodes_closed_form"))
+    if pid != "C07":
+        # the model's `assert_acyclic(graph)` is a contract call: raises iff the graph has a cycle (C07 carries the full set below)
+        cs.append(xhrun.Cond("harness_topo", "c07_kahn", {"XH_TN": 3, "XH_SELF": 1, "XH_MULTI": 0}, timeout=1500, label="assert_acyclic_contract_tn3_self1"))
     if pid == "C06":
         # the glue above the engine: process -> NodeError -> run -> CallError (call identity, cause identity, nothing downstream)
         for sh in (("chain3", "join3") if tier == "quick" else ("chain3", "fork3", "join3", "indep3")):
@@ -291,6 +298,7 @@ def lemma_conditions(pid, tier):
         if tier == "thorough":
             topo += [("c07_kahn", {"XH_TN": 4, "XH_SELF": 0, "XH_MULTI": 1}), ("c07_kahn", {"XH_TN": 3, "XH_SELF": 1, "XH_MULTI": 1}),
                      ("c07_run", {"XH_REG": 1, "XH_SELF": 1, "XH_TOUT": "last"}), ("c07_run", {"XH_REG": 0, "XH_SELF": 1, "XH_TOUT": "last"})]
+        topo.append(("c07_render", {}))  # reporting a failure terminates (rendering the failed call's symbolic traceback)
         for fn, env in topo:
             cs.append(xhrun.Cond("harness_topo", fn, env, timeout=1500, label=fn + "".join(f"_{k[3:].lower()}{v}" for k, v in env.items())))
         # threads run creates include the display threads of the bundled observers: a member failing in __enter__ must not leave the
